@@ -1221,3 +1221,88 @@ func TestGovcReplay(t *testing.T) {
 		},
 	})
 }
+
+func init() {
+	harnesses = append(harnesses, &harness{
+		name:      "ping-pong pool dirty-reuse replay (local reset then destroy on a hand-built pool)",
+		modelFree: true,
+		match: func(o *Obligation) bool {
+			return strings.Contains(o.Func, "stream/xprotocol.(*activeClientPingPong)") || strings.Contains(o.Func, "stream/xprotocol.(*poolPingPong)")
+		},
+		run: func(eng *Engine, o *Obligation) *ReplayOutcome {
+			src := `package xprotocol
+
+import (
+	"fmt"
+	"testing"
+
+	metrics "github.com/rcrowley/go-metrics"
+	"mosn.io/api"
+	v2 "mosn.io/mosn/pkg/config/v2"
+	"mosn.io/mosn/pkg/types"
+	"mosn.io/mosn/pkg/upstream/cluster"
+)
+
+type govcInfo struct {
+	types.ClusterInfo
+	rm    types.ResourceManager
+	stats *types.ClusterStats
+}
+
+func (i *govcInfo) ResourceManager() types.ResourceManager { return i.rm }
+func (i *govcInfo) Stats() *types.ClusterStats            { return i.stats }
+
+type govcHost struct {
+	types.Host
+	info  *govcInfo
+	stats *types.HostStats
+}
+
+func (h *govcHost) ClusterInfo() types.ClusterInfo { return h.info }
+func (h *govcHost) HostStats() *types.HostStats    { return h.stats }
+
+type govcConn struct {
+	types.ClientConnection
+	ac     *activeClientPingPong
+	closed int
+}
+
+func (c *govcConn) ID() uint64 { return 9 }
+func (c *govcConn) Close(ccType api.ConnectionCloseType, eventType api.ConnectionEvent) error {
+	c.closed++
+	c.ac.OnEvent(eventType) // the connection delivers the close event to its listeners
+	return nil
+}
+
+// The failed obligation says: a ping-pong connection whose exchange was reset locally (the request timed out or
+// the downstream went away) is not asked to close before it is handed back to the pool. Replay on a hand-built
+// pool with a recording connection: local reset, then stream destruction.
+func TestGovcReplay(t *testing.T) {
+	rm := cluster.NewResourceManager(v2.CircuitBreakers{})
+	cs := &types.ClusterStats{UpstreamRequestActive: metrics.NewCounter(), UpstreamRequestLocalReset: metrics.NewCounter(), UpstreamConnectionClose: metrics.NewCounter(), UpstreamConnectionActive: metrics.NewCounter(), UpstreamConnectionLocalClose: metrics.NewCounter()}
+	hs := &types.HostStats{UpstreamRequestActive: metrics.NewCounter(), UpstreamRequestLocalReset: metrics.NewCounter(), UpstreamConnectionClose: metrics.NewCounter(), UpstreamConnectionActive: metrics.NewCounter(), UpstreamConnectionLocalClose: metrics.NewCounter()}
+	host := &govcHost{info: &govcInfo{rm: rm, stats: cs}, stats: hs}
+	base := &connpool{}
+	base.host.Store(types.Host(host))
+	p := &poolPingPong{connpool: base, idleClients: []*activeClientPingPong{}}
+	ac := &activeClientPingPong{pool: p}
+	conn := &govcConn{ac: ac}
+	ac.host = types.CreateConnectionData{Connection: conn}
+	p.totalClientCount.Store(1) // ac is leased to a request
+	// the request times out: the proxy resets the stream locally, then the stream is destroyed
+	ac.OnResetStream(types.StreamLocalReset)
+	ac.OnDestroyStream()
+	for _, c := range p.idleClients {
+		if c == ac {
+			fmt.Printf("REPLAY-CONFIRMED a connection whose exchange was reset locally is back in the idle list (closed=%v, Close calls=%d): it will serve the next request\n", ac.closed, conn.closed)
+			return
+		}
+	}
+	fmt.Println("REPLAY-NOT-REPRODUCED", len(p.idleClients), conn.closed)
+}
+`
+			out, _ := runOverlayTest("pkg/stream/xprotocol", src, "^TestGovcReplay$")
+			return outcomeFromOutput(src, out)
+		},
+	})
+}
